@@ -298,3 +298,42 @@ func MsgString(m *dns.Msg) string {
 
 	return b.String()
 }
+
+// CaseVariant returns name with the letter case of at least one letter
+// changed; ok is false if name has no letter.
+func CaseVariant(t *rapid.T, name string) (v string, ok bool) {
+	b := []byte(name)
+	var letters []int
+	for i, c := range b {
+		if (c >= 'a' && c <= 'z') || (c >= 'A' && c <= 'Z') {
+			letters = append(letters, i)
+		}
+	}
+
+	if len(letters) == 0 {
+		return name, false
+	}
+
+	must := letters[rapid.IntRange(0, len(letters)-1).Draw(t, "caseMust")]
+	all := rapid.IntRange(0, 3).Draw(t, "caseAll") == 0
+	for _, i := range letters {
+		if i == must || all || rapid.Bool().Draw(t, "caseFlip") {
+			b[i] ^= 0x20
+		}
+	}
+
+	return string(b), true
+}
+
+// FoldMsg renders a message without regard to the letter case of names and to
+// the message ID, for comparing the answers to two spellings of one question.
+func FoldMsg(m *dns.Msg) string {
+	if m == nil {
+		return "<nil>"
+	}
+
+	c := m.Copy()
+	c.Id = 0
+
+	return strings.ToLower(c.String())
+}
